@@ -618,6 +618,101 @@ def boost_overlap_unversioned(rng, case):
     return case
 
 
+REDUNDANT_TABLES = [
+    # crit-d lists crit-a (which already implies crit-b), crit-b again, and then crit-c
+    {"crit-a": ["crit-b"], "crit-b": [], "crit-c": [], "crit-d": ["crit-a", "crit-b", "crit-c"]},
+    # crit-c lists safe-to-deploy and crit-a; crit-a lists safe-to-run (already implied by safe-to-deploy) and then crit-b
+    {"crit-a": ["safe-to-run", "crit-b"], "crit-b": [], "crit-c": ["safe-to-deploy", "crit-a"], "crit-d": []},
+]
+
+
+def boost_redundant_implies(rng, case):
+    """a criteria table in which a criterion lists something an EARLIER member of its list already implies, and another
+    criterion after it (legal, and what hand-maintained tables look like); one crate is certified only through the top
+    criterion and required to meet the last-listed one: the closure must not stop at the redundant member"""
+    store = case["store_struct"]
+    k = rng.randrange(len(REDUNDANT_TABLES))
+    store["criteria"] = {n: {"description": f"desc {n}", "implies": list(l)} for n, l in REDUNDANT_TABLES[k].items()}
+    top, last = [("crit-d", "crit-c"), ("crit-c", "crit-b")][k]
+    dp, notes = _isolate_crate(rng, case, 4200)
+    if dp is None:
+        return case
+    store["audits"][dp["name"]] = [{"kind": "full", "version": vstr(dp), "criteria": [top], "notes": notes()}]
+    for p in case["graph"]["packages"]:
+        if p["workspace"]:
+            for key in [k_ for k_ in store["policy"] if k_.split(":")[0] == p["name"]]:
+                del store["policy"][key]
+            store["policy"][p["name"]] = {"criteria": [last], "dev-criteria": [last]}
+    return case
+
+
+def boost_wild_two_sources(rng, case):
+    """one crate with wildcard audits in TWO sources (an imported peer's section of imports.lock and the project's own
+    audits.toml), entry #0 of each, for different users and different criteria, and a publisher record matching only the
+    WEAKER entry: the crate is certified for the weaker entry's criteria and nothing more"""
+    dp, notes = _isolate_crate(rng, case, 4400)
+    if dp is None:
+        return case
+    store = case["store_struct"]
+    peer, url = PEERS[0]
+    store["imports"].setdefault(peer, {"url": [url]})
+    store["imports"][peer].pop("exclude", None)
+    sec = store["lock"]["audits"].setdefault(peer, {"criteria": {}, "audits": {}, "wildcard_audits": {}})
+    strong_user, weak_user = rng.sample([1, 2, 3], 2)
+    every = ["safe-to-deploy"] + [c for c in _crits(store) if c not in BUILTINS]
+    strong = {"user-id": strong_user, "start": "2022-01-01", "end": "2023-01-01", "criteria": every, "notes": notes()}
+    weak = {"user-id": weak_user, "start": "2022-01-01", "end": "2023-01-01", "criteria": ["safe-to-run"], "notes": notes()}
+    if rng.random() < 0.5:
+        sec.setdefault("wildcard_audits", {})[dp["name"]] = [strong]
+        store["wildcard_audits"][dp["name"]] = [weak]
+    else:
+        sec.setdefault("wildcard_audits", {})[dp["name"]] = [weak]
+        store["wildcard_audits"][dp["name"]] = [strong]
+    store["lock"]["publisher"][dp["name"]] = [{"version": vstr(dp), "when": "2022-06-15", "user-id": weak_user,
+                                               "user-login": f"user{weak_user}", "user-name": f"User {weak_user}"}]
+    return case
+
+
+def boost_member_order(rng, case):
+    """two workspace members, the one listed FIRST in the metadata being a normal dependency of the second (so only the
+    second is a top-level crate); the top-level crate's policy asks for safe-to-run only, nothing else has a policy, and every
+    third-party crate is exempted for safe-to-run: the store passes"""
+    pkgs = case["graph"]["packages"]
+    store = case["store_struct"]
+    ws = [p for p in pkgs if p["workspace"]]
+    thirds = [p for p in pkgs if p["source"] == "registry"]
+    if not ws or not thirds:
+        return case
+    a = next((p for p in ws if p["name"] == "wsaaa"), ws[0])
+    b = next((p for p in ws if p is not a), None)
+    if b is None:
+        t = rng.choice(thirds)
+        b = {"name": "wsbbb", "version": "1.0.0", "source": "path", "workspace": True,
+             "deps": [{"name": t["name"], "version": t["version"], "source": t["source"], "kinds": ["normal"]}]}
+        pkgs.append(b)
+    # a depends on b (normal), b does not depend on a
+    b["deps"] = [d for d in b["deps"] if d["name"] != a["name"]]
+    a["deps"] = [d for d in a["deps"] if d["name"] != b["name"]] + [{"name": b["name"], "version": b["version"], "source": b["source"], "kinds": ["normal"]}]
+    if not any(d["source"] == "registry" for d in b["deps"]):
+        t = rng.choice(thirds)
+        b["deps"].append({"name": t["name"], "version": t["version"], "source": t["source"], "kinds": ["normal"]})
+    # b first
+    pkgs.remove(b)
+    pkgs.insert(0, b)
+    pkgs.remove(a)
+    pkgs.insert(rng.randint(1, len(pkgs)), a)
+    store["policy"] = {a["name"]: {"criteria": ["safe-to-run"]}}
+    for tbl in ("audits", "wildcard_audits", "trusted", "exemptions"):
+        store[tbl] = {}
+    store["imports"] = {}
+    store["lock"] = {"audits": {}, "publisher": {}, "unpublished": {}}
+    for p in pkgs:
+        if p["source"] == "registry":
+            store["exemptions"].setdefault(p["name"], []).append({"version": p["version"], "criteria": ["safe-to-run"], "suggest": True, "notes": "n"})
+    # path / git crates other than the members stay first party: no audit-as-crates-io entries are left
+    return case
+
+
 def boost_exemptions(rng, case):
     store = case["store_struct"]
     notes = Notes()
@@ -1944,6 +2039,19 @@ def gen_aggregate_case(rng, cid):
                 for w in f["trusted"][n]:
                     if nsrc > 1 and rng.random() < 0.3:
                         w["aggregated-from"] = [f"https://src{rng.choice([j for j in range(nsrc) if j != k])}.example/audits.toml"]
+        if rng.random() < 0.3:
+            # two trust grants for one crate, one publisher and one criteria list that differ ONLY in their window (a renewal
+            # kept next to the old grant; the other one may sit in another source): both are entries of their own
+            n = rng.choice(names)
+            uid = rng.randint(1, 3)
+            cl = crit_list(rng, pcrits)
+            f["trusted"].setdefault(n, []).append({"user-id": uid, "start": "2021-06-01", "end": "2022-06-15", "criteria": list(cl), "notes": notes()})
+            tgt = f if (k == 0 or rng.random() < 0.5) else structs[sources[rng.randrange(k)]["url"]]
+            tgt["trusted"].setdefault(n, []).append({"user-id": uid, "start": "2022-06-15", "end": "2023-06-01", "criteria": list(cl), "notes": notes()})
+            if tgt is not f:
+                for s_ in sources:
+                    if structs[s_["url"]] is tgt:
+                        s_["text"] = render_audits_file(tgt)
         structs[url] = f
         sources.append({"url": url, "text": render_audits_file(f)})
     # a local project to evaluate "import the aggregate" vs "import every source"
@@ -2134,6 +2242,30 @@ def nasty(rng):
     if r < 0.7:
         return rng.choice(NASTY)
     return "".join(rng.choice(["a", " ", "\n", '"', "'", "\\", "#", "\t", "é", "]", "\x02"]) for _ in range(rng.randint(1, 12)))
+
+
+def boost_peer_mixed_unknown(rng, case):
+    """validate case, made unlocked: a peer's WILDCARD audit (and an audit) naming a criterion the peer does not define
+    next to ones it does — the unknown name is to be stripped, the rest of the entry used"""
+    peers = case.get("peers_struct") or {}
+    store = case["store_struct"]
+    urls = [imp["url"][0] for imp in store["imports"].values() if imp["url"][0] in peers]
+    if not urls:
+        return case
+    pf = peers[rng.choice(sorted(urls))]
+    crate = rng.choice(sorted({p["name"] for p in case["graph"]["packages"]}))
+    crit = rng.choice([["safe-to-run", "peer-unknown"], ["peer-unknown", "safe-to-deploy", "peer-unknown-2"], ["peer-unknown", "safe-to-run"]])
+    pf["wildcard_audits"].setdefault(crate, []).append(
+        {"user-id": rng.randint(1, 3), "start": "2022-01-01", "end": "2023-06-01", "criteria": crit, "notes": "mixed"})
+    if rng.random() < 0.5:
+        pf["audits"].setdefault(crate, []).append({"kind": "full", "version": "1.0.0", "criteria": list(reversed(crit)), "notes": "mixed"})
+    case["mode"] = "unlocked"
+    case["faults"] = list(case.get("faults", [])) + [{"kind": "peer-unknown-criteria"}]
+    texts = dict(case.get("peers") or {})
+    for u in urls:
+        texts[u] = render_audits_file(peers[u]) if isinstance(peers[u], dict) else texts.get(u)
+    case["peers"] = texts
+    return case
 
 
 def gen_serde_case(rng, cid):
